@@ -27,40 +27,6 @@ import Fbr.Lemmas.OvlRmdirA
 
 namespace Fbr.Ovl
 
-/-- a node that is in the upper layer has its parent node in the upper layer -/
-theorem parent_inUpper {s : St} (hc : Consistent s) {n : Name} {pp : Path} {m pm : MNode}
-    (hm : s.mem (n :: pp) = some m) (hpm : s.mem pp = some pm) (hmu : m.inUpper = true) :
-    pm.inUpper = true := by
-  -- 0 is among the kept indices of the child, hence of the parent, hence the parent's first
-  have h0 : 0 ∈ expIdx s.disk (n :: pp) := by
-    rcases realsOK_forms hc.roots (hc.reals _ m hm) with h | ⟨i, hi, hi0, _⟩
-    · cases he : expIdx s.disk (n :: pp) with
-      | nil => rw [he] at h; simp [MNode.inUpper, h] at hmu
-      | cons i0 t0 =>
-        have : m.inUpper = (i0 == 0) := by simp [MNode.inUpper, h, he, realOf]
-        rw [hmu] at this
-        have hi0 : i0 = 0 := by simpa using this.symm
-        simp [hi0]
-    · rw [hi, hi0]; simp
-  have hsub : (expIdx s.disk (n :: pp)).Sublist (expIdx s.disk pp) := by
-    rw [expIdx]
-    exact ((cutW_sublist s.disk _ _).trans List.filter_sublist).trans (dirsIdx_sublist s.disk pp _)
-  have h0p : 0 ∈ expIdx s.disk pp := hsub.subset h0
-  have hhead : ∃ t, expIdx s.disk pp = 0 :: t := by
-    cases he : expIdx s.disk pp with
-    | nil => rw [he] at h0p; cases h0p
-    | cons i t =>
-      rw [he] at h0p
-      simp only [List.mem_cons] at h0p
-      rcases h0p with h | h
-      · exact ⟨t, by rw [← h]⟩
-      · have := (List.pairwise_cons.1 (he ▸ expIdx_sorted s.disk pp)).1 0 h
-        omega
-  obtain ⟨t, ht⟩ := hhead
-  rcases realsOK_forms hc.roots (hc.reals _ pm hpm) with h | ⟨i, _, hi0, h⟩
-  · simp [MNode.inUpper, h, ht, realOf]
-  · simp [MNode.inUpper, h, hi0, staleOf, realOf]
-
 /-- `lower_entry_exists` only reads lower layers -/
 theorem lowerEntryExists_congr {s : St} (hc : Consistent s) {p : Path} {pm : MNode} (hpm : s.mem p = some pm)
     (d' : Disk) (hlow : d'.lowers = s.disk.lowers) (n : Name) :
